@@ -239,7 +239,7 @@ def _stmt_hook(fn, ind, s):
     # self.method(*a, **k): the method's effect is on self
     if isinstance(f.value, ast.Name) and f.value.id == "self" and fn.cls is not None and "self" in fn.all_params:
         q = f"{fn.cls.name}.{f.attr}"
-        info = next((i for i in fn.known.values() if i.spec.qual == q and i.spec.returns_self), None)
+        info = fn.pick(q, lambda i: i.spec.returns_self)
         if info is not None:
             me = fn.name("self")
             fn.mutates_self = True
@@ -250,7 +250,7 @@ def _stmt_hook(fn, ind, s):
     if (isinstance(f.value, ast.Attribute) and isinstance(f.value.value, ast.Name) and f.value.value.id == "self"
             and fn.cls is not None and (fn.cls.name, f.value.attr) in T.FIELD_CLASS and "self" in fn.all_params):
         owner = T.FIELD_CLASS[(fn.cls.name, f.value.attr)]
-        info = next((i for i in fn.known.values() if i.spec.qual == f"{owner}.{f.attr}" and i.spec.returns_self), None)
+        info = fn.pick(f"{owner}.{f.attr}", lambda i: i.spec.returns_self)
         if info is None:
             return False
         me = fn.name("self")
